@@ -84,12 +84,9 @@ impl Parser for GoModParser {
                     let version_match = caps.get(2).unwrap();
                     let version = version_match.as_str();
 
-                    // Calculate byte offset for version
-                    let line_start = content
-                        .lines()
-                        .take(line_num)
-                        .map(|l| l.len() + 1)
-                        .sum::<usize>();
+                    // Byte offset of this line in the document (`lines()` yields subslices of
+                    // `content`, so this also holds for CRLF line endings)
+                    let line_start = line.as_ptr() as usize - content.as_ptr() as usize;
                     let version_start = line_start + version_match.start();
                     let version_end = line_start + version_match.end();
 
@@ -113,12 +110,9 @@ impl Parser for GoModParser {
                 let version_match = caps.get(2).unwrap();
                 let version = version_match.as_str();
 
-                // Calculate byte offset for version
-                let line_start = content
-                    .lines()
-                    .take(line_num)
-                    .map(|l| l.len() + 1)
-                    .sum::<usize>();
+                // Byte offset of this line in the document (`lines()` yields subslices of
+                // `content`, so this also holds for CRLF line endings)
+                let line_start = line.as_ptr() as usize - content.as_ptr() as usize;
                 // Find actual position in the original line (not trimmed)
                 let require_pos = line.find("require").unwrap_or(0);
                 let version_pos_in_line = line[require_pos..]
